@@ -366,7 +366,13 @@ func c09netKey(s string) string {
 		return n.String()
 	}
 	if ip := net.ParseIP(s); ip != nil {
-		return ip.String()
+		if ip.To4() != nil {
+			return ip.String() + "/32"
+		}
+		return ip.String() + "/128"
+	}
+	if s == "" {
+		return "0.0.0.0/0"
 	}
 	return s
 }
